@@ -106,17 +106,18 @@ CLAIMED = {
         "Lean 4 theorems (certificate layer + graph theory incl. cycle extraction) + program-equality correspondence",
         "DESIGN.md §5 C06"),
     "C08": (
-        "PARTIAL. Kernel-checked for all graphs / all board shapes: C08_not_adjacent_graph, C08_not_adjacent_grid (shifted-slice form = "
-        "pairwise form on the grid graph, 1xN and Nx1 included), C08_segmenting_graph (generic route = no adjacent actives and inactive "
-        "vertices connected), C08_grid_line (single-row/column boards), and for h,w >= 2: C08_grid_diag_sound + C08_grid_diag_complete "
-        "(the specialised diagonal-rank program is satisfiable iff the pattern is non-adjacent and the diagonal chains of active cells "
-        "form a forest touching the border at most once -- including the rank-range (h*w-1)//2 corner). NOT proved: the planar lemma "
-        "statement_planar (diagonal forest iff inactive cells connected, a discrete Jordan-curve fact), hence statement_grid for "
-        "h,w >= 2 is not claimed as a theorem; the thorough tier compares both encodings on every pattern of every board with "
-        "h*w <= 16 on the real code, labelled as a bounded test of that one lemma.",
-        "Trusted: Lean kernel + standard axioms; Mathlib IsAcyclic/Preconnected; generator models tied by program equality; the planar "
-        "lemma is an unproved, explicitly stated gap.",
-        "Lean 4 theorems (partial: planar lemma open) + program-equality correspondence + bounded exhaustive differential",
+        "Kernel-checked for all graphs / ALL board shapes: C08_not_adjacent_graph, C08_not_adjacent_grid (shifted-slice form = pairwise "
+        "form on the grid graph, 1xN and Nx1 included), C08_segmenting_graph (generic route = no adjacent actives and inactive vertices "
+        "connected), C08_grid (FULL array-form statement: the specialised grid encoding accepts exactly the patterns of the "
+        "explicit-graph form on the grid graph), assembled from C08_grid_line (single-row/column boards), C08_grid_diag_sound + "
+        "C08_grid_diag_complete (diagonal-rank program satisfiable iff non-adjacent and the diagonal chains form a forest touching the "
+        "border at most once, incl. the rank range (h*w-1)//2) and C08_planar (the discrete Jordan-curve lemma: diagonal forest iff "
+        "white cells connected, proved by leaf removal / ray-casting parity). Tie: program equality on random graphs and boards up to "
+        "5x5; failing-input search over all patterns of small boards, long diagonal chains on boards up to 8x8, small graphs; the "
+        "thorough tier additionally compares both encodings exhaustively up to 16 cells on the real code.",
+        "Trusted: Lean kernel + standard axioms; Mathlib IsAcyclic/Preconnected; generator models tied by program equality; boards with "
+        "a zero dimension raise ValueError (vacuous).",
+        "Lean 4 theorems (certificate layers + planar lemma) + program-equality correspondence",
         "DESIGN.md §5 C08"),
     "C10": (
         "Kernel-checked theorems for ALL frame sizes, both modes and both routes: C10_exact_aux / C10_exact_prim (the emitted program "
